@@ -37,7 +37,7 @@ CHECKS = {
         technique="Lean 4 theorems on the runner-level model (unittest protocol, TestResult, layer loop) + differential correspondence on generated test worlds + trace monitors",
         design="§5 C12"),
     "C13": dict(
-        text="Runner-level Lean model (Model/Proto = unittest 3.12.1 protocol, Model/Result = TestResult, Model/Runner = layer loop, resume, children) tied to the code by running the real runner (CLI, real children) on generated test worlds whose hooks and tests write a pid-tagged trace; every process is compared event by event with the model on this property's projection, and the property's clauses are monitored on the real traces/output. Projection/monitor: token attribution under --buffer (quiet when ok, shown when failing, never in another test's report) and stream identity seen by layer hooks.",
+        text="Runner-level Lean model (Model/Proto = unittest 3.12.1 protocol, Model/Result = TestResult, Model/Runner = layer loop, resume, children) tied to the code by running the real runner (CLI, real children) on generated test worlds whose hooks and tests write a pid-tagged trace; every process is compared event by event with the model on this property's projection, and the property's clauses are monitored on the real traces/output. Theorems (every test sequence, every outcome kind, every op sequence unittest can produce): between tests and after the run the std streams are the originals and every per-test hook saw them (C13_restored_between_tests), without --buffer they are never replaced (C13_never_replaced), a test without a failure/error shows nothing (C13_quiet_when_ok), whatever becomes visible is shown under the name of the test that wrote it - the buffers are empty when a test starts (C13_attributed_test, C13_attribution over a whole layer run), and a test that records a failure/error has everything it wrote made visible under its name (C13_failing_shown). Projection/monitor: token attribution under --buffer (quiet when ok, shown when failing, never in another test's report) and stream identity seen by layer hooks, incl. tests that rebind or own their std streams and XML reports.",
         note="output after a failing test's last result event is raw inside its window",
         technique="Lean 4 theorems on the runner-level model (unittest protocol, TestResult, layer loop) + differential correspondence on generated test worlds + trace monitors",
         design="§5 C13"),
